@@ -566,6 +566,11 @@ func (st *ex4State) handler(sv *ex4Server) server4.Handler {
 			if err != nil {
 				continue
 			}
+			if t.Coin(1, 25) {
+				// a message-type option that is two octets long: no DHCP message type at all
+				rep.UpdateOption(dhcpv4.OptGeneric(dhcpv4.OptionDHCPMessageType, []byte{byte(typ), []byte{6, 0, 2, 5}[t.Choose(4)]}))
+				s.Fault("reply-two-octet-message-type")
+			}
 			// the scripted server answers the client it knows, whatever the library's reply
 			// builder makes of the request's hardware address field
 			rep.ClientHWAddr = append(net.HardwareAddr(nil), ex4ClientHW...)
@@ -737,6 +742,11 @@ func (st *ex4State) checkCompletion(v *vio, o *ex4Op, name string, got *dhcpv4.D
 	if src == nil {
 		v.add("X-result-provenance", "%s: the completing %s is not the decoding of a datagram delivered during the REQUEST phase", name, got.MessageType())
 		return
+	}
+	// what kind of message it is, read from the wire by the independent option reader: exactly
+	// one octet of option 53 (after RFC 3396 concatenation) with the expected value
+	if raw, ok := parseBootp(src.bytes); ok && raw.typ() != int(want) {
+		v.add("X-result-type-wire", "%s: completed by a datagram whose message-type option is % x on the wire, want the single octet %d", name, raw.opts[53], int(want))
 	}
 	tx := tryBefore(o, o.retSeq)
 	if tx == nil {
